@@ -37,6 +37,26 @@ ACTIONS = [
     ('action_utils.html.shift_attribute_ranges', 'attribute ranges are shifted by the tag offset'),
     ('action_utils.html.value_range', 'the value range excludes the quotes'),
 ]
+INDENT = [
+    ('markup.format.indent_format.push_value', 'element text: on the element line when it is one line, otherwise every text line on its own line one level deeper, each behind the text marker of the syntax'),
+    ('markup.format.indent_format.push_primary_attributes', 'id and class are printed as #id / .class shorthands in written order'),
+    ('markup.format.indent_format.push_secondary_attributes', 'other attributes are printed inside the attribute brackets of the syntax, separated by its glue'),
+    ('markup.format.indent_format.collect_attributes', 'attributes are split into primary (id, class with a value) and secondary, each in written order'),
+    ('markup.format.indent_format.value_length', 'length of a value: characters of strings plus the placeholders of fields'),
+]
+CSSMATCH = [
+    ('stylesheet.get_unmatched_part', 'the unmatched part starts after the last character of the abbreviation that was found in the snippet key, in order'),
+    ('stylesheet.score.calculate_score', 'the score walks both strings in order; a key that equals the abbreviation scores 1'),
+    ('stylesheet.resolve_as_property', 'a matched property snippet takes the unmatched part as inline value and resolves keywords and numbers of the written values'),
+    ('stylesheet.resolve_as_snippet', 'a raw snippet replaces the node value'),
+    ('stylesheet.snippets.nest', 'a snippet whose key prefixes another is linked to it as a dependency'),
+    ('stylesheet.snippets.create_snippet', 'a snippet value that looks like a property becomes a property snippet, else a raw one'),
+]
+CSSVALUE = [
+    ('stylesheet.resolve_keyword', 'a keyword is looked up in the snippet keywords, then in the global keywords, by best score'),
+    ('stylesheet.resolve_numeric_value', 'a number without unit gets the int / float unit of the property unless the property is unit-less; a unit alias is replaced'),
+    ('stylesheet.resolve_value_keywords', 'literal values are resolved against the snippet keywords, the others are left as written'),
+]
 
 
 def _run(p, res, rname, items):
@@ -58,3 +78,18 @@ def tbl_cssscan(p, res):
 @rule('TBL-ACTIONS', 'N', 'editor action helpers: reviewed case analysis')
 def tbl_actions(p, res):
     _run(p, res, 'TBL-ACTIONS', ACTIONS)
+
+
+@rule('TBL-INDENT', 'N', 'indent-based formatter (haml / pug / slim): reviewed case analysis')
+def tbl_indent(p, res):
+    _run(p, res, 'TBL-INDENT', INDENT)
+
+
+@rule('TBL-CSSMATCH', 'N', 'stylesheet snippet matching: reviewed case analysis')
+def tbl_cssmatch(p, res):
+    _run(p, res, 'TBL-CSSMATCH', CSSMATCH)
+
+
+@rule('TBL-CSSVALUE', 'N', 'stylesheet value resolution: reviewed case analysis')
+def tbl_cssvalue(p, res):
+    _run(p, res, 'TBL-CSSVALUE', CSSVALUE)
